@@ -108,7 +108,14 @@ def canonical_ops(chk, n_random, every, nvalues, rng, want=("encode",), overfill
             continue
         ops = []
         for vi, rv in enumerate(r["values"]):
-            if "set_error" in rv or rv.get("<", "EXC:").startswith("EXC:") or rv.get(">", "EXC:").startswith("EXC:"):
+            if "set_error" in rv:
+                # the generators only produce values that are well-typed for the schema: no Python message, hence no
+                # canonical bytes and no text to compare the C++ side with
+                chk.violation("set-%d-%d" % (j["id"], vi), case_of(cases, jobs, j["id"], vi, {
+                    "kind": "a value that is well-typed for the schema is rejected by the Python API (%s), so Python and C++ "
+                            "cannot be compared on it" % rv["set_error"]}))
+                continue
+            if rv.get("<", "EXC:").startswith("EXC:") or rv.get(">", "EXC:").startswith("EXC:"):
                 continue
             for e, key in (("little", "<"), ("big", ">")):
                 index[(j["id"], len(ops))] = (vi, e, rv[key])
